@@ -251,6 +251,11 @@ pub fn compute_checksum(header: &WalFrameHeader, page_data: &[u8]) -> u64 {
 }
 
 pub fn validate_checksum(header: &WalFrameHeader, page_data: &[u8]) -> bool {
+    // CRC-64/ECMA of all-zero input is 0, so a run of never-written zero bytes would pass
+    // as a frame for (file 0, page 0). Writers never use a zero salt pair.
+    if header.salt1 == 0 && header.salt2 == 0 {
+        return false;
+    }
     let computed = compute_checksum(header, page_data);
     computed == header.checksum
 }
@@ -285,7 +290,7 @@ impl Wal {
             .duration_since(SystemTime::UNIX_EPOCH)
             .unwrap()
             .as_nanos();
-        (nanos as u32) ^ ((nanos >> 32) as u32)
+        ((nanos as u32) ^ ((nanos >> 32) as u32)) | 1
     }
 
     pub fn find_latest_segment(dir: &Path) -> Result<u64> {
